@@ -151,9 +151,12 @@ protected:
                     const unsigned char* ptr_groupSrcGetMultipolePtr = reinterpret_cast<const unsigned char*>(&groupSrcGetMultipolePtr[0]);
                     const unsigned char* ptr_groupTargetGetLocalPtr = reinterpret_cast<const unsigned char*>(&groupTargetGetLocalPtr[0]);
 
-#pragma omp task depend(in:ptr_groupSrcGetMultipolePtr[0]) depend(commute:ptr_groupTargetGetLocalPtr[0]) default(shared) firstprivate(idxLevel, indexesVec, groupSrcPtr, groupTargetPtr)  priority(priorities.getM2LPriority(idxLevel))
+                    auto* kernelsPtr = kernels.data();
+                    const auto* kernelWrapperPtr = &kernelWrapper;
+
+#pragma omp task depend(in:ptr_groupSrcGetMultipolePtr[0]) depend(commute:ptr_groupTargetGetLocalPtr[0]) default(shared) firstprivate(idxLevel, indexesVec, groupSrcPtr, groupTargetPtr, kernelsPtr, kernelWrapperPtr)  priority(priorities.getM2LPriority(idxLevel))
                     {
-                        kernelWrapper.M2LBetweenGroups(idxLevel, kernels[omp_get_thread_num()], *groupTargetPtr, *groupSrcPtr, std::move(*indexesVec));
+                        kernelWrapperPtr->M2LBetweenGroups(idxLevel, kernelsPtr[omp_get_thread_num()], *groupTargetPtr, *groupSrcPtr, std::move(*indexesVec));
                         delete indexesVec;
                     }
                 });
@@ -284,9 +287,12 @@ protected:
                 const unsigned char* ptr_groupTargetGetDataPtr = reinterpret_cast<const unsigned char*>(&groupTargetGetDataPtr[0]);
                 const unsigned char* ptr_groupTargetGetRhsPtr = reinterpret_cast<const unsigned char*>(&groupTargetGetRhsPtr[0]);
 
-#pragma omp task depend(in:ptr_groupSrcGetDataPtr[0],ptr_groupTargetGetDataPtr[0]) depend(commute:ptr_groupTargetGetRhsPtr[0]) default(shared) firstprivate(indexesVec, groupSrcPtr, groupTargetPtr) priority(priorities.getP2PPriority())
+                auto* kernelsPtr = kernels.data();
+                const auto* kernelWrapperPtr = &kernelWrapper;
+
+#pragma omp task depend(in:ptr_groupSrcGetDataPtr[0],ptr_groupTargetGetDataPtr[0]) depend(commute:ptr_groupTargetGetRhsPtr[0]) default(shared) firstprivate(indexesVec, groupSrcPtr, groupTargetPtr, kernelsPtr, kernelWrapperPtr) priority(priorities.getP2PPriority())
                 {
-                    kernelWrapper.P2PBetweenGroupsTsm(kernels[omp_get_thread_num()], *groupSrcPtr, *groupTargetPtr, std::move(*indexesVec));
+                    kernelWrapperPtr->P2PBetweenGroupsTsm(kernelsPtr[omp_get_thread_num()], *groupSrcPtr, *groupTargetPtr, std::move(*indexesVec));
                     delete indexesVec;
                 }
             });
